@@ -117,3 +117,11 @@ Example C23_block_nonvacuous :
             chk_mem_block is (Some (MkInfo RControl false [1] [] [] [] [] false)) E = true /\
             existsb (gedge_eqb (1, 2, KMem AW)%N) E = true /\ existsb (gedge_eqb (4, 5, KMem AC)%N) E = true.
 Proof. vm_compute. eexists. repeat split. Qed.
+
+(** verdict 0 of a block-level case of the C23 check (Model/GraphMem.v, run on the memory edges the
+    implementation built for the block) entails the block-level specification *)
+From QV Require Import Model.GraphMem.
+Theorem C23_block_verdict_sound :
+  forall (is : list info) (term : option info) (M : list edge),
+    block_verdict is term M = 0%N -> mem_block_spec is term (as_gedges M).
+Proof. exact block_verdict_sound. Qed.
